@@ -69,10 +69,17 @@ def lake_build(targets, timeout=3000):
     return rc == 0, out
 
 
+def prop_modules(prop):
+    """the Lean modules holding the property's theorems: LlirProofs/Props/<prop>.lean plus any <prop><Suffix>.lean (e.g. C20Facts: the theorems
+    over regenerated facts, kept apart so that other properties' proofs do not depend on generated files they do not need)"""
+    d = os.path.join(LEAN, "LlirProofs", "Props")
+    return sorted("LlirProofs.Props." + f[:-5] for f in os.listdir(d) if re.fullmatch(re.escape(prop) + r"[A-Za-z]*\.lean", f))
+
+
 def audit(prop):
     """Theorem list + axioms for one property, from the compiled proofs (imports only that property's module)."""
     body = open(os.path.join(LEAN, "Audit.lean")).read()
-    body = body.replace("import LlirProofs\n", "import LlirProofs.Props.%s\n" % prop)
+    body = body.replace("import LlirProofs\n", "".join("import %s\n" % m for m in prop_modules(prop)))
     os.makedirs(WORK, exist_ok=True)
     path = os.path.join(WORK, "audit_%s.lean" % prop)
     open(path, "w").write(body)
@@ -297,7 +304,7 @@ def compare(res, findings, lines, impl, model, search=None):
 
 def proof_stage(res, prop, extra_targets=()):
     """lake build the property's theorems and audit them. Returns coverage dict parts."""
-    ok, out = lake_build(["LlirProofs.Props." + prop, "modeldriver"] + list(extra_targets))
+    ok, out = lake_build(prop_modules(prop) + ["modeldriver"] + list(extra_targets))
     if not ok:
         return False, out, []
     okA, rows, aout = audit(prop)
